@@ -4,25 +4,27 @@
 From Coq Require Import List ZArith NArith Extraction ExtrOcamlBasic.
 From Coq Require Import Init.Byte Strings.Byte.
 From LMBase Require Import Res IEEE.
-From LMTransfac Require Import Bytes Stream Nom Dec2F32 TransfacParse TransfacReader TransfacPrint Checkers TransfacPoll TransfacFault GenReader TransfacFreq.
+From LMTransfac Require Import Bytes Stream Nom Dec2F32 TransfacParse TransfacReader TransfacPrint Checkers TransfacPoll TransfacFault GenReader TransfacCur TransfacFreq.
 
 Definition byte_of_N : N -> option byte := Byte.of_N.
 Definition byte_to_N : byte -> N := Byte.to_N.
 
-(* the reader with the record parser of the (repaired) code *)
+(* the reader with the record parser as translate/transfac_reader.py finds it in parse.rs on this run
+   (TransfacCur.parse_record_cur: = parse_record_fixed, the complete space1, as long as parse.rs uses no
+   streaming combinator -- C15.parse_record_cur_is_fixed) *)
 Definition model_run (al : alpha) (s : stream) : list obs :=
-  observe_run (run_reader (parse_record_fixed al) s).
+  observe_run (run_reader (parse_record_cur al) s).
 (* ... and with the parser as it was before the repair of F18 (regression witness) *)
 Definition model_run_streaming (al : alpha) (s : stream) : list obs :=
   observe_run (run_reader (parse_record_streaming al) s).
 
 (* round 3: consumers that keep polling after the first error / end of input ... *)
 Definition model_run_post (al : alpha) (post : nat) (s : stream) : list obs :=
-  observe_run (run_reader_post (parse_record_fixed al) post s).
+  observe_run (run_reader_post (parse_record_cur al) post s).
 (* ... and the reader over a stream with scripted I/O faults, as a trace ([fixed] = the repair
    proposed for finding F-T1) *)
 Definition model_trace_ev (al : alpha) (fixed : bool) (post : nat) (s : estream) : list obs :=
-  observe_trace (trace_run_e (parse_record_fixed al) fixed post s).
+  observe_trace (trace_run_e (parse_record_cur al) fixed post s).
 
 (* the reader as translate/transfac_reader.py finds it in the source (GenReader.v) *)
 Definition model_trace_cur (al : alpha) (post : nat) (s : estream) : list obs :=
@@ -32,4 +34,5 @@ Extraction Language OCaml.
 Extraction "transfac_model.ml"
   byte_of_N byte_to_N model_run model_run_streaming model_run_post model_trace_ev model_trace_cur check_c15p check_c14p to_freq_bits
   check_c14 check_c15 first_diff obs_eqb observe_record
-  print_file expected_record wf_file f32_bits_of_token.
+  print_file expected_record wf_file f32_bits_of_token parse_streaming_modelled
+  check_same_chunkings check_count.
